@@ -11,6 +11,7 @@ from astropy.utils.console import ProgressBar
 
 from ..convolved_fluxes import ConvolvedFluxes
 from ..sed import SED, SEDCube
+from ..sed.helpers import convert_flux
 from ..models import load_parameter_table
 from ..utils import parfile
 
@@ -152,15 +153,26 @@ def _convolve_model_dir_2(model_dir, filters, overwrite=False, memmap=True):
     # Set up list of binned filters
     binned_filters = [f.rebin(sed_cube.nu) for f in filters]
 
-    # We do the unit conversion - if needed - at the last minute
-    val_factor = sed_cube.val.unit.to(u.mJy)
-    unc_factor = sed_cube.unc.unit.to(u.mJy)
+    # We do the unit conversion - if needed - at the last minute. Cubes stored
+    # in flux density units only need a constant factor; other units (e.g.
+    # ergs/cm^2/s or ergs/s) depend on frequency and distance and are
+    # converted slice by slice below, as for the individual SED files.
+    flux_density = sed_cube.val.unit.is_equivalent(u.mJy) and sed_cube.unc.unit.is_equivalent(u.mJy)
+    if flux_density:
+        val_factor = sed_cube.val.unit.to(u.mJy)
+        unc_factor = sed_cube.unc.unit.to(u.mJy)
+    else:
+        val_factor = unc_factor = 1.
 
     # Loop over apertures
     for i_ap in ProgressBar(range(sed_cube.n_ap)):
 
-        sed_val = sed_cube.val[:, i_ap, :].value
-        sed_unc = sed_cube.unc[:, i_ap, :].value
+        if flux_density:
+            sed_val = sed_cube.val[:, i_ap, :].value
+            sed_unc = sed_cube.unc[:, i_ap, :].value
+        else:
+            sed_val = convert_flux(sed_cube.nu, sed_cube.val[:, i_ap, :], u.mJy, distance=sed_cube.distance).value
+            sed_unc = convert_flux(sed_cube.nu, sed_cube.unc[:, i_ap, :], u.mJy, distance=sed_cube.distance).value
 
         for i, f in enumerate(binned_filters):
 
